@@ -13,12 +13,12 @@ use super::sworld::short;
 use crate::{core::Ctx, ident};
 use discv5::{
     enr::NodeId,
-    verif::{self, net::Endpoint, toolkit, PacketKind, SessionKeys},
+    verif::{self, net::Endpoint, toolkit, Message, PacketKind, RequestBody, ResponseBody, SessionKeys},
     ConfigBuilder, Discv5, Enr, Event, ListenConfig, TokioExecutor,
 };
 use std::{
     cmp::Reverse,
-    collections::{BTreeMap, BinaryHeap},
+    collections::{BTreeMap, BTreeSet, BinaryHeap},
     future::Future,
     net::{IpAddr, Ipv4Addr, SocketAddr},
     pin::Pin,
@@ -27,11 +27,15 @@ use std::{
 };
 use tokio::{sync::mpsc, task::JoinHandle};
 
+#[derive(Default, Clone, Copy)]
 pub struct Which {
     pub c09: bool,
+    pub c10: bool,
     pub c11: bool,
     pub c13: bool,
+    pub c14: bool,
     pub c19: bool,
+    pub c20: bool,
 }
 
 struct FNode {
@@ -44,6 +48,8 @@ struct FNode {
     events: Option<mpsc::Receiver<Event>>,
     timeout_ms: u64,
     retries: u8,
+    session_cap: usize,
+    session_ttl_ms: u64,
 }
 
 fn faddr(i: usize) -> SocketAddr {
@@ -56,7 +62,7 @@ async fn start_node(n: &mut FNode) -> Result<(), String> {
         _ => unreachable!(),
     };
     let mut b = ConfigBuilder::new(ListenConfig::Ipv4 { ip, port });
-    b.request_timeout(Duration::from_millis(n.timeout_ms)).request_retries(n.retries).disable_enr_update().query_peer_timeout(Duration::from_millis(2 * n.timeout_ms)).query_timeout(Duration::from_secs(20)).ping_interval(Duration::from_secs(36_000));
+    b.request_timeout(Duration::from_millis(n.timeout_ms)).request_retries(n.retries).disable_enr_update().query_peer_timeout(Duration::from_millis(2 * n.timeout_ms)).query_timeout(Duration::from_secs(20)).ping_interval(Duration::from_secs(36_000)).session_cache_capacity(n.session_cap).session_timeout(Duration::from_millis(n.session_ttl_ms));
     let mut cfg = b.build();
     cfg.executor = Some(Box::new(TokioExecutor));
     let mut d = Discv5::new(n.enr.clone(), ident::pool()[n.ident].key(), cfg).map_err(|e| e.to_string())?;
@@ -113,7 +119,16 @@ async fn run_async(ctx: &mut Ctx, which: Which) {
             _ => unreachable!(),
         };
         let enr = ident::record(ident::RecSpec { ident: identity, seq: 1, ip4: Some((ip, addr.port())), ip6: None, pad: 0 });
-        let mut node = FNode { ident: identity, id: ident::pool()[identity].id, addr, enr, d: None, ep: None, events: None, timeout_ms: *ctx.tape.pick(&[500u64, 1000]), retries: 1 + ctx.tape.choose(2) as u8 };
+        let mut node = FNode { ident: identity, id: ident::pool()[identity].id, addr, enr, d: None, ep: None, events: None, timeout_ms: *ctx.tape.pick(&[500u64, 1000]), retries: 1 + ctx.tape.choose(2) as u8, session_cap: 1000, session_ttl_ms: 86_400_000 };
+        // tuning knobs: tiny session cache / short session lifetime, so that sessions vanish mid-exchange
+        if ctx.tape.choose(4) == 0 {
+            node.session_cap = 1 + ctx.tape.choose(2) as usize;
+            ctx.fault("tiny_session_cache");
+        }
+        if ctx.tape.choose(4) == 0 {
+            node.session_ttl_ms = *ctx.tape.pick(&[300u64, 1500, 5000]);
+            ctx.fault("short_session_lifetime");
+        }
         if let Err(e) = start_node(&mut node).await {
             ctx.fail("harness-error", e, &[]);
             return;
@@ -122,6 +137,8 @@ async fn run_async(ctx: &mut Ctx, which: Which) {
     }
     let fault_free = ctx.tape.choose(4) == 0;
     let mut profile = NetProfile { base_latency_ms: 1, ..Default::default() };
+    let mut corrupt_pct = 0u32;
+    let mut replay_pct = 0u32;
     if !fault_free {
         if ctx.tape.choose(2) == 1 {
             profile.drop_pct = *ctx.tape.pick(&[2u32, 10, 25]);
@@ -134,11 +151,17 @@ async fn run_async(ctx: &mut Ctx, which: Which) {
             profile.max_delay_ms = *ctx.tape.pick(&[30u32, 600, 2500]);
         }
         profile.jitter_ms = *ctx.tape.pick(&[0u32, 3, 30]);
+        if ctx.tape.choose(3) == 0 {
+            corrupt_pct = *ctx.tape.pick(&[2u32, 10]);
+        }
+        if ctx.tape.choose(3) == 0 {
+            replay_pct = *ctx.tape.pick(&[3u32, 15]);
+        }
     }
     let load_ms = 3000 + ctx.tape.choose(5000) as u64;
     let max_to = nodes.iter().map(|x| x.timeout_ms).max().unwrap();
     let bound_ms = 25_000 + 6 * 3 * max_to; // query timeout 20 s + request chains
-    ctx.ev(format!("cfg nodes={n} fault_free={fault_free} profile={profile:?} load_ms={load_ms} bound_ms={bound_ms}"));
+    ctx.ev(format!("cfg nodes={n} fault_free={fault_free} profile={profile:?} corrupt_pct={corrupt_pct} replay_pct={replay_pct} load_ms={load_ms} bound_ms={bound_ms}"));
     // bootstrap knowledge: a chain / star chosen by the tape
     for i in 0..n {
         for j in 0..n {
@@ -177,7 +200,15 @@ async fn run_async(ctx: &mut Ctx, which: Which) {
     push(&mut heap, load_ms, Ev::StopFaults);
 
     // API futures in flight: (node, kind, started, handle)
-    let mut calls: Vec<(usize, &'static str, u64, JoinHandle<String>)> = vec![];
+    let mut calls: Vec<(usize, &'static str, u64, JoinHandle<(String, Vec<NodeId>)>, Option<NodeId>)> = vec![];
+    // ---- message-level monitors (plaintext read off the wire with the key log)
+    // C10: (receiver, responder id) for which a NODES packet was put on the wire
+    let mut nodes_sent: BTreeSet<(usize, [u8; 32])> = BTreeSet::new();
+    // C14: FINDNODE requests seen on the wire: (requester, responder, request id) -> distances
+    let mut fn_reqs: BTreeMap<(usize, usize, Vec<u8>), Vec<u64>> = BTreeMap::new();
+    // C20: TALKREQ handed to the application of a node: (node, requester id, request id) -> expected payloads
+    let mut talk_expected: BTreeMap<(usize, [u8; 32], Vec<u8>), Vec<Vec<u8>>> = BTreeMap::new();
+    let mut talk_sent: BTreeMap<(usize, [u8; 32], Vec<u8>), usize> = BTreeMap::new();
     let mut finished_calls = 0u64;
     let mut partitions: Vec<(usize, usize, u64)> = vec![];
     let mut faults_on = true;
@@ -197,26 +228,42 @@ async fn run_async(ctx: &mut Ctx, which: Which) {
         if ctx.failed() || steps > 200_000 {
             break;
         }
-        // applications: drain events, answer TALK requests
-        for (i, nd) in nodes.iter_mut().enumerate() {
-            if let Some(rx) = nd.events.as_mut() {
-                while let Ok(e) = rx.try_recv() {
-                    if let Event::TalkRequest(req) = e {
-                        let body = req.body().to_vec();
-                        let _ = req.respond(body);
-                        let _ = i;
-                    }
-                }
-            }
-        }
         // finished API calls
         let mut k = 0;
         while k < calls.len() {
             if calls[k].3.is_finished() {
-                let (node, kind, t0, h) = calls.remove(k);
-                let r = h.await.unwrap_or_else(|e| format!("join error: {e}"));
+                let (node, kind, t0, h, target) = calls.remove(k);
+                let (r, ids) = h.await.unwrap_or_else(|e| (format!("join error: {e}"), vec![]));
                 finished_calls += 1;
                 ctx.ev(format!("t={} n{node} {kind} (started {t0}) -> {r}", now_ms()));
+                if which.c10 {
+                    if let Some(target) = target {
+                        ctx.count("full_stack_lookup_results_checked");
+                        let me = nodes[node].id;
+                        let dist = |x: &NodeId| -> [u8; 32] {
+                            let mut o = [0u8; 32];
+                            for (k, b) in o.iter_mut().enumerate() {
+                                *b = x.raw()[k] ^ target.raw()[k];
+                            }
+                            o
+                        };
+                        let mut seen: BTreeSet<[u8; 32]> = BTreeSet::new();
+                        for (k, id) in ids.iter().enumerate() {
+                            if !seen.insert(id.raw()) {
+                                ctx.fail("c10.duplicate-result", format!("n{node}: find_node({}) returned {} twice", short(&target), short(id)), &["full-stack"]);
+                            } else if *id == me {
+                                ctx.fail("c10.local-node-in-result", format!("n{node}: find_node({}) returned the local node", short(&target)), &["full-stack"]);
+                            } else if !nodes_sent.contains(&(node, id.raw())) {
+                                ctx.fail("c10.result-never-answered", format!("n{node}: find_node({}) returned {} although that node never sent this node a NODES response", short(&target), short(id)), &["full-stack"]);
+                            } else if k > 0 && dist(&ids[k - 1]) > dist(id) {
+                                ctx.fail("c10.not-sorted", format!("n{node}: find_node({}) result is not in increasing distance to the target at position {k}", short(&target)), &["full-stack"]);
+                            }
+                        }
+                        if ids.len() > 16 {
+                            ctx.fail("c10.more-than-k", format!("n{node}: find_node returned {} nodes", ids.len()), &["full-stack"]);
+                        }
+                    }
+                }
             } else {
                 k += 1;
             }
@@ -235,6 +282,7 @@ async fn run_async(ctx: &mut Ctx, which: Which) {
         }
         enum W {
             D(usize, verif::net::Outbound),
+            E(usize, Event),
             T,
         }
         let w = {
@@ -248,6 +296,14 @@ async fn run_async(ctx: &mut Ctx, which: Which) {
                         }
                     }
                 }
+                // the applications react at once to what their node reports
+                for (i, nd) in nodes_ref.iter_mut().enumerate() {
+                    if let Some(rx) = nd.events.as_mut() {
+                        if let Poll::Ready(Some(e)) = rx.poll_recv(cx) {
+                            return Poll::Ready(W::E(i, e));
+                        }
+                    }
+                }
                 if sl.as_mut().poll(cx).is_ready() {
                     return Poll::Ready(W::T);
                 }
@@ -256,6 +312,21 @@ async fn run_async(ctx: &mut Ctx, which: Which) {
             .await
         };
         match w {
+            W::E(i, e) => {
+                if let Event::TalkRequest(req) = e {
+                    let body = req.body().to_vec();
+                    let key = (i, req.node_id().raw(), req.id().0.clone());
+                    if which.c20 && ctx.tape.choose(3) == 0 {
+                        ctx.count("talk_requests_dropped_by_application");
+                        talk_expected.entry(key).or_default().push(vec![]);
+                        drop(req);
+                    } else {
+                        ctx.count("talk_requests_answered_by_application");
+                        talk_expected.entry(key).or_default().push(body.clone());
+                        let _ = req.respond(body);
+                    }
+                }
+            }
             W::D(from, (dst, dst_id, bytes)) => {
                 datagrams += 1;
                 last_tx.insert((from, dst), now_ms());
@@ -273,6 +344,21 @@ async fn run_async(ctx: &mut Ctx, which: Which) {
                     PacketKind::WhoAreYou { .. } => "WHOAREYOU",
                     PacketKind::Handshake { .. } => "HANDSHAKE",
                 };
+                for k in verif::take_session_keys() {
+                    keylog.push(k);
+                }
+                // plaintext of the sender's own traffic, attributed to the session key that produced it
+                let mut plain: Option<(usize, Vec<u8>)> = None;
+                if !matches!(d.kind, PacketKind::WhoAreYou { .. }) {
+                    for (ki, k) in keylog.iter().enumerate() {
+                        if k.local == nodes[from].id {
+                            if let Some(pt) = toolkit::decrypt(&k.encryption_key, d.message_nonce, &d.message, &d.authenticated_data) {
+                                plain = Some((ki, pt));
+                                break;
+                            }
+                        }
+                    }
+                }
                 if which.c19 {
                     match &d.kind {
                         PacketKind::WhoAreYou { id_nonce, .. } => {
@@ -281,17 +367,75 @@ async fn run_async(ctx: &mut Ctx, which: Which) {
                             }
                         }
                         _ => {
-                            for (ki, k) in keylog.iter().enumerate() {
-                                if k.local == nodes[from].id && toolkit::decrypt(&k.encryption_key, d.message_nonce, &d.message, &d.authenticated_data).is_some() {
-                                    if let Some(prev) = nonce_seen.insert((from, ki, d.message_nonce), bytes.clone()) {
-                                        if prev != bytes {
-                                            ctx.fail("c19.nonce-reused", format!("n{from} encrypted two different datagrams under one session key with nonce {}", hex::encode(d.message_nonce)), &[]);
-                                        }
+                            if let Some((ki, _)) = &plain {
+                                ctx.count("encrypted_datagrams_attributed_to_key");
+                                if let Some(prev) = nonce_seen.insert((from, *ki, d.message_nonce), bytes.clone()) {
+                                    if prev != bytes {
+                                        ctx.fail("c19.nonce-reused", format!("n{from} encrypted two different datagrams under one session key with nonce {}", hex::encode(d.message_nonce)), &[]);
                                     }
-                                    break;
                                 }
                             }
                         }
+                    }
+                }
+                let to_idx = nodes.iter().position(|x| x.addr == dst);
+                if let (Some((_, pt)), Some(to)) = (&plain, to_idx) {
+                    match Message::decode(pt) {
+                        Ok(Message::Request(rq)) => {
+                            if let RequestBody::FindNode { distances } = &rq.body {
+                                fn_reqs.insert((from, to, rq.id.0.clone()), distances.clone());
+                            }
+                        }
+                        Ok(Message::Response(rs)) => match &rs.body {
+                            ResponseBody::Nodes { total, nodes: recs } => {
+                                nodes_sent.insert((to, nodes[from].id.raw()));
+                                if which.c14 {
+                                    ctx.count("full_stack_nodes_packets_checked");
+                                    if *total == 0 {
+                                        ctx.fail("c14.total-zero", format!("n{from} sent a NODES packet with total 0"), &["full-stack"]);
+                                    }
+                                    let table: BTreeSet<[u8; 32]> = nodes[from].d.as_ref().map(|d| d.table_entries_id().into_iter().map(|x| x.raw()).collect()).unwrap_or_default();
+                                    if let Some(dists) = fn_reqs.get(&(to, from, rs.id.0.clone())) {
+                                        for r in recs {
+                                            let rid = r.node_id();
+                                            let dist = log2_distance(&nodes[from].id, &rid);
+                                            if rid == nodes[to].id {
+                                                ctx.fail("c14.requester-record-returned", format!("n{from} returned the requester's own record to n{to}"), &["full-stack"]);
+                                            } else if !dists.contains(&dist) {
+                                                ctx.fail("c14.record-at-wrong-distance", format!("n{from} answered FINDNODE{dists:?} of n{to} with a record at distance {dist}"), &["full-stack"]);
+                                            } else if rid != nodes[from].id && nodes[from].d.is_some() && !table.contains(&rid.raw()) {
+                                                ctx.fail("c14.record-not-in-table", format!("n{from} answered FINDNODE{dists:?} of n{to} with {} which is not in its routing table", short(&rid)), &["full-stack"]);
+                                            }
+                                        }
+                                    }
+                                }
+                            }
+                            ResponseBody::Pong { enr_seq, ip, port } => {
+                                if which.c14 {
+                                    ctx.count("full_stack_pongs_checked");
+                                    let seq = nodes[from].d.as_ref().map(|d| d.local_enr().seq());
+                                    if SocketAddr::new(*ip, port.get()) != dst {
+                                        ctx.fail("c14.pong-wrong-address", format!("n{from} sent n{to} a PONG reporting {ip}:{port} but the PING came from {dst}"), &["full-stack"]);
+                                    } else if seq.map(|s| s != *enr_seq).unwrap_or(false) {
+                                        ctx.fail("c14.pong-wrong-seq", format!("n{from} sent a PONG with enr-seq {enr_seq}, its record has {seq:?}"), &["full-stack"]);
+                                    }
+                                }
+                            }
+                            ResponseBody::Talk { response } => {
+                                if which.c20 {
+                                    let key = (from, nodes[to].id.raw(), rs.id.0.clone());
+                                    let c = talk_sent.entry(key.clone()).or_insert(0);
+                                    *c += 1;
+                                    let exp = talk_expected.get(&key).cloned().unwrap_or_default();
+                                    if *c > exp.len() {
+                                        ctx.fail("c20.not-exactly-one-response", format!("n{from} sent TALKRESP #{c} for request {} of n{to}, but its application was handed that request {} time(s)", hex::encode(&rs.id.0), exp.len()), &["full-stack"]);
+                                    } else if !exp.contains(response) {
+                                        ctx.fail("c20.wrong-payload", format!("n{from} sent a TALKRESP with a payload the application did not produce (request {})", hex::encode(&rs.id.0)), &["full-stack"]);
+                                    }
+                                }
+                            }
+                        },
+                        Err(_) => {}
                     }
                 }
                 // routing with faults
@@ -312,6 +456,20 @@ async fn run_async(ctx: &mut Ctx, which: Which) {
                 if faults_on && profile.dup_pct > 0 && ctx.tape.choose(100) >= 100 - profile.dup_pct {
                     copies = 2;
                     ctx.fault("duplicate");
+                }
+                // a stale copy of this datagram arrives (again) much later, from the same source
+                if faults_on && replay_pct > 0 && ctx.tape.choose(100) < replay_pct {
+                    ctx.fault("late_replay");
+                    let at = now + 50 + ctx.tape.choose(6000) as u64;
+                    if at < load_ms {
+                        push(&mut heap, at, Ev::Deliver { to, src, bytes: bytes.clone() });
+                    }
+                }
+                let mut bytes = bytes;
+                if faults_on && corrupt_pct > 0 && ctx.tape.choose(100) < corrupt_pct {
+                    ctx.fault("bit_flip");
+                    let pos = ctx.tape.choose(bytes.len() as u32) as usize;
+                    bytes[pos] ^= 1 << ctx.tape.choose(8);
                 }
                 for _ in 0..copies {
                     let mut lat = profile.base_latency_ms as u64 + if profile.jitter_ms > 0 { ctx.tape.choose(profile.jitter_ms + 1) as u64 } else { 0 };
@@ -338,17 +496,19 @@ async fn run_async(ctx: &mut Ctx, which: Which) {
                             let Some(d) = nodes[node].d.as_ref() else { continue };
                             let peer_enr = nodes[peer].enr.clone();
                             let name: &'static str;
-                            let h: JoinHandle<String> = match kind {
+                            let mut lookup_target: Option<NodeId> = None;
+                            let h: JoinHandle<(String, Vec<NodeId>)> = match kind {
                                 0 | 1 => {
                                     name = "find_node";
                                     let mut raw = nodes[peer].id.raw();
                                     raw[31] ^= ctx.tape.choose(4) as u8; // the peer's id itself or an adjacent id
                                     let target = if kind == 0 { NodeId::new(&raw) } else { NodeId::new(&crate::worlds::fworld::rand_id(ctx)) };
                                     let f = d.find_node(target);
+                                    lookup_target = Some(target);
                                     tokio::spawn(async move {
                                         match f.await {
-                                            Ok(v) => format!("ok {} nodes", v.len()),
-                                            Err(e) => format!("err {e:?}"),
+                                            Ok(v) => (format!("ok {} nodes", v.len()), v.iter().map(|e| e.node_id()).collect()),
+                                            Err(e) => (format!("err {e:?}"), vec![]),
                                         }
                                     })
                                 }
@@ -357,8 +517,8 @@ async fn run_async(ctx: &mut Ctx, which: Which) {
                                     let f = d.send_ping(peer_enr);
                                     tokio::spawn(async move {
                                         match f.await {
-                                            Ok(p) => format!("pong seq {}", p.enr_seq),
-                                            Err(e) => format!("err {e:?}"),
+                                            Ok(p) => (format!("pong seq {}", p.enr_seq), vec![]),
+                                            Err(e) => (format!("err {e:?}"), vec![]),
                                         }
                                     })
                                 }
@@ -368,8 +528,8 @@ async fn run_async(ctx: &mut Ctx, which: Which) {
                                     let f = d.talk_req(contact, b"p".to_vec(), vec![1, 2, 3]);
                                     tokio::spawn(async move {
                                         match f.await {
-                                            Ok(v) => format!("talk {} bytes", v.len()),
-                                            Err(e) => format!("err {e:?}"),
+                                            Ok(v) => (format!("talk {} bytes", v.len()), vec![]),
+                                            Err(e) => (format!("err {e:?}"), vec![]),
                                         }
                                     })
                                 }
@@ -378,14 +538,14 @@ async fn run_async(ctx: &mut Ctx, which: Which) {
                                     let f = d.find_node_designated_peer(peer_enr, vec![0, 256, 255]);
                                     tokio::spawn(async move {
                                         match f.await {
-                                            Ok(v) => format!("nodes {}", v.len()),
-                                            Err(e) => format!("err {e:?}"),
+                                            Ok(v) => (format!("nodes {}", v.len()), vec![]),
+                                            Err(e) => (format!("err {e:?}"), vec![]),
                                         }
                                     })
                                 }
                             };
                             ctx.ev(format!("t={now} n{node} API {name} -> n{peer}"));
-                            calls.push((node, name, now, h));
+                            calls.push((node, name, now, h, lookup_target));
                         }
                         Ev::Restart { node } => {
                             if now < stop_ms {
@@ -395,12 +555,14 @@ async fn run_async(ctx: &mut Ctx, which: Which) {
                                 let mut k = 0;
                                 while k < calls.len() {
                                     if calls[k].0 == node {
-                                        let (_, _, _, h) = calls.remove(k);
+                                        let (_, _, _, h, _) = calls.remove(k);
                                         h.abort();
                                     } else {
                                         k += 1;
                                     }
                                 }
+                                talk_expected.retain(|k, _| k.0 != node);
+                                talk_sent.retain(|k, _| k.0 != node);
                                 if let Some(mut d) = nodes[node].d.take() {
                                     d.shutdown();
                                 }
@@ -443,7 +605,7 @@ async fn run_async(ctx: &mut Ctx, which: Which) {
     // ---- end-of-run oracles
     let t_end = now_ms();
     if which.c09 {
-        for (node, kind, t0, h) in &calls {
+        for (node, kind, t0, h, _) in &calls {
             if !h.is_finished() {
                 ctx.fail(
                     "c09.no-termination",
@@ -478,6 +640,22 @@ async fn run_async(ctx: &mut Ctx, which: Which) {
             }
         }
     }
+    // a response handed to a handler that has meanwhile lost the session with the requester cannot be
+    // sent (the handler drops it): "exactly one" is demanded at the wire only in runs where that did not happen
+    let dropped_for_lack_of_session = verif::probe("handler.response_dropped_no_session");
+    if dropped_for_lack_of_session > 0 {
+        ctx.count("runs_with_response_dropped_for_lack_of_session");
+    }
+    if which.c20 && !ctx.failed() && dropped_for_lack_of_session == 0 {
+        for (key, exp) in &talk_expected {
+            ctx.count("full_stack_talk_requests_checked");
+            let sent = talk_sent.get(key).copied().unwrap_or(0);
+            if sent != exp.len() {
+                ctx.fail("c20.not-exactly-one-response", format!("n{}: the application was handed TALKREQ {} of {} {} time(s) but {sent} TALKRESP were sent (node not restarted since)", key.0, hex::encode(&key.2), hex::encode(&key.1[..3]), exp.len()), &["full-stack"]);
+                break;
+            }
+        }
+    }
     ctx.sample = Some(serde_json::json!({"nodes": n, "datagrams": datagrams, "api_calls_finished": finished_calls, "api_calls_open": calls.len()}));
     if datagrams > 0 {
         ctx.count("full_stack_runs_with_traffic");
@@ -491,6 +669,17 @@ async fn run_async(ctx: &mut Ctx, which: Which) {
         }
     }
     verif::net::uninstall();
+}
+
+/// log2 of the XOR distance (0 for equal ids), computed independently of the crate's Key type.
+fn log2_distance(a: &NodeId, b: &NodeId) -> u64 {
+    for (i, (x, y)) in a.raw().iter().zip(b.raw().iter()).enumerate() {
+        let d = x ^ y;
+        if d != 0 {
+            return (256 - 8 * i as u64) - d.leading_zeros() as u64;
+        }
+    }
+    0
 }
 
 pub fn rand_id(ctx: &mut Ctx) -> [u8; 32] {
